@@ -255,6 +255,9 @@ def exprs(draw, depth, names, helpers, control_flow, allow_partial=True, pvars=(
     if names and draw(st.booleans()):
       # a factory with an argument bound to a variable that is (possibly) used elsewhere as well
       facs[names_[0]] = ['partial', 'things.make_rec', [], {'tag': ['var', draw(st.sampled_from(names))]}]
+    if helpers and draw(st.booleans()):
+      # the factory is itself an auto_config function (argument-free: its parameter has a default)
+      facs[names_[-1]] = f'helper{draw(st.integers(0, helpers - 1))}'
     return ['afpartial', fname, facs]
   if kind == 'helper':
     return ['helper', draw(st.integers(0, helpers - 1)), [sub()] if draw(st.booleans()) else []]
